@@ -27,10 +27,10 @@ LEVEL_TEXT = ('static analysis: (D1) each filter body is interpreted, through it
               'permutation: each merges exactly the runs of its own level (a level vector re-wrapped on a fresh 0..n-1 index is aligned by label '
               'onto the wrong rows); on one-row tables nothing merges and ampdel still keeps only cn = 0 or cn >= 5. D2 includes neighbours that '
               'both lack allelic copy numbers (cn1 = cn2 missing): they share their level; a missing level next to a known one is left '
-              'unspecified. (CLI) the `call` command line(s), through a model of argparse built from the declarations in commands.py and the real'
-              ' _cmd_ body interpreted with readers, library step and writers stubbed: every --filter, in the order given, reaches do_call. '
-              'Decides the run-length grouping on that scope only (longer tables follow the same cumulative-key construction; no induction is '
-              'attempted).')
+              'unspecified. D6 includes method `none` (a called table filtered again: the cn-based filters still run), D2 tables left without '
+              'rows. (CLI) the `call` command line(s), through a model of argparse built from the declarations in commands.py and the real _cmd_ '
+              'body interpreted with readers, library step and writers stubbed: every --filter, in the order given, reaches do_call. Decides the '
+              'run-length grouping on that scope only (longer tables follow the same cumulative-key construction; no induction is attempted).')
 TECHNIQUE = ('abstract interpretation of the filter bodies over order positions; bounded exhaustive interpretation of the grouping on literal '
              'tables; closed forms on symbolic groups; dominance; index-label alignment hazard on literal tables')
 
